@@ -127,3 +127,58 @@ Proof.
     + rewrite C2. exact Hent.
 Qed.
 End Params.
+
+(* ---------- into_iter / into_keys / into_values, and Drop ---------- *)
+(* the owning iterator: a TakingIterator over the cache it owns. Dropping it takes (and so drops) what is left, then
+   forgets the buckets (clear_no_drop) so that the cache's own Drop finds nothing; forgetting it leaks the rest. *)
+Definition kv_drops (kind : N) (items : list (option (key * val))) : list N :=
+  flat_map (fun o => match o with None => [] | Some (k, v) =>
+     if kind =? 1 then [vtok v] else if kind =? 2 then [ktok k] else [] end) items.
+
+Definition bB_into_iter (b : bstate) (kind : N) (pat : list bool) (f : fin) : option (out * events) :=
+  let g := bg b in
+  cu <- cursor_new (gh g) (gseal g) (match glist g with [] => true | _ => false end) ;;
+  x <- tk_run (gh g) cu pat ;;
+  let '(h3, items) := x in
+  let rest := live_entries h3 (rev (glist g)) in
+  Some (OItems items,
+        {| e_evicted := []; e_dropped := kv_drops kind items ++ (match f with FDrop => all_toks rest | FForget => [] end);
+           e_hashes := 0; e_rebuilt := false; e_visits := [] |}).
+
+(* Drop for LruCache: every listed bucket's pair is dropped (table.drain()), then the seal is freed *)
+Definition bB_drop (b : bstate) : events :=
+  {| e_evicted := []; e_dropped := all_toks (live_entries (gh (bg b)) (rev (glist (bg b)))); e_hashes := 0; e_rebuilt := false; e_visits := [] |}.
+
+Lemma kv_drops_map kind outs : kv_drops kind (map (option_map kv) outs) = yielded_drops kind outs.
+Proof.
+  induction outs as [|o outs IH]; [reflexivity|]. unfold kv_drops, yielded_drops in *. cbn [map flat_map]. rewrite IH. f_equal.
+  destruct o as [e|]; reflexivity.
+Qed.
+
+Theorem into_iter_refines b kind pat f o evs : RIg (bg b) -> bB_into_iter b kind pat f = Some (o, evs) ->
+  do_into_iter (absB b) kind pat f = (o, evs).
+Proof.
+  intros H Hb. unfold bB_into_iter in Hb. unfold do_into_iter. cbn [ents absB]. fold (absG (bg b)).
+  rewrite (cursor_new_start _ H) in Hb. cbn [bind] in Hb.
+  pose proof H as (Hnd & Hc & _ & _).
+  set (M := rev (glist (bg b))) in *.
+  assert (HndM : NoDup M) by apply (RI_nodup_rev _ H).
+  destruct (tk_spec pat M (gh (bg b)) 0 HndM (chain_linked _ _ _ Hnd Hc) (RI_live _ H)) as (h3 & Hr & (M1 & M2 & M3) & _ & _ & _).
+  rewrite Hr in Hb. cbn [bind] in Hb. injection Hb as <- <-.
+  rewrite (absG_map _ H), take_ends_map. fold M.
+  assert (Hitems : map (fun o => match o with Some a => kv_at (gh (bg b)) a | None => None end) (fst (take_ends M pat))
+                   = map (option_map kv) (map (option_map (entry_or_dummy (gh (bg b)))) (fst (take_ends M pat)))).
+  { rewrite map_map. apply map_ext_in. intros [a|] Ha; [|reflexivity]. cbn [option_map].
+    now destruct (live_entry _ a (RI_live _ H a (take_ends_in pat M a Ha))) as [_ ->]. }
+  rewrite Hitems, kv_drops_map. f_equal. f_equal. f_equal.
+  destruct f; [|reflexivity]. f_equal.
+  rewrite (live_entries_after (gh (bg b)) h3 (somes (fst (take_ends M pat))) M).
+  - rewrite <- (take_ends_rest_filter pat M HndM). symmetry. apply entries_of_live.
+    intros a Ha. apply (RI_live _ H). rewrite (take_ends_rest_filter pat M HndM) in Ha. now apply filter_In in Ha as [? _].
+  - intros x Hx. destruct (M1 x Hx) as (k & v & _ & Hp). eauto.
+  - exact M2.
+  - intros x. apply (tk_run_size pat _ _ h3 _ x Hr).
+Qed.
+
+Theorem drop_refines b : bB_drop b = do_drop (absB b).
+Proof. unfold bB_drop, do_drop. now rewrite live_entries_eq. Qed.
